@@ -275,7 +275,7 @@ func docSchema(r *rng) schemaSpec {
 		// names shared with the other types
 		other.fields = append(other.fields, fieldSpec{name: "string", code: 1}, fieldSpec{rel: true, name: "many", target: "small"}, fieldSpec{name: "a", code: 2, nullable: true})
 	}
-	return schemaSpec{types: []typeSpec{all, other, small}, wrapped: map[string]bool{"alltypes": r.bool(), "small": r.bool(), "other": r.bool()}}
+	return schemaSpec{types: []typeSpec{all, other, small}, wrapped: map[string]bool{"alltypes": r.bool(), "small": r.bool(), "other": r.bool()}, derived: r.chance(1, 4)}
 }
 
 func randResSpec(r *rng, sc schemaSpec, tn string, id string) resSpec {
